@@ -83,7 +83,8 @@ var txStmts = []*sqlair.Statement{
 	sqlair.MustPrepare("SELECT &Person.* FROM person WHERE id = $Person.id", Person{}),
 	sqlair.MustPrepare("INSERT INTO person (*) VALUES ($Person.*)", Person{}),
 	// a statement whose SQL depends on the argument shape (slice length)
-	sqlair.MustPrepare("SELECT &Person.* FROM person WHERE id IN ($IntSlice[:])", Person{}, IntSlice{}),
+	// (the number of parameters is the same for every shape: q+1 integers and 3-q strings)
+	sqlair.MustPrepare("SELECT &Person.* FROM person WHERE id IN ($IntSlice[:]) OR name IN ($StrSlice[:])", Person{}, IntSlice{}, StrSlice{}),
 }
 
 // the context the transaction is begun with: TX.Query must not inherit it (a nil context given to
@@ -92,11 +93,8 @@ const beginMarker = 999
 
 func txArgs(kind int, r *rng) []any {
 	if kind == 3 {
-		sl := IntSlice{}
-		for i := 0; i < 1+r.intn(3); i++ {
-			sl = append(sl, 40+i)
-		}
-		return []any{sl}
+		sl, ss := twoSlices(r.intn(3))
+		return []any{sl, ss}
 	}
 	return []any{Person{ID: 7, Name: "n"}}
 }
@@ -147,6 +145,10 @@ func (w *txWorld) events(marker int) []string {
 			if n := strings.Count(ev.SQL, "@sqlair_"); n != len(ev.Args) {
 				w.viol("C09", "tx-executed-a-statement-prepared-for-another-shape", fmt.Sprintf("%d arguments for %q", len(ev.Args), ev.SQL))
 			}
+			if d := shapeMismatch(ev); d != "" {
+				w.viol("C09", "tx-executed-a-statement-prepared-for-another-shape", d)
+				w.viol("C12", "tx-executed-a-statement-prepared-for-another-shape", d)
+			}
 			if marker == -1 {
 				// the query was built with a nil context: the driver must see context.Background()
 				if ev.CtxMarker != nil || ev.Deadline {
@@ -160,6 +162,11 @@ func (w *txWorld) events(marker int) []string {
 				if m, _ := ev.CtxMarker.(int); m != marker {
 					w.viol("C20", "tx-execution-without-callers-context", fmt.Sprintf("marker %v want %d", ev.CtxMarker, marker))
 				}
+			}
+		case "prepare":
+			// whatever a TX operation prepares, it prepares on the transaction's connection
+			if same == "!" && marker != 0 {
+				w.viol("C12", "tx-prepare-on-other-connection", fmt.Sprintf("%s on conn %d, tx conn %d", ev.SQL, ev.Conn, w.conn))
 			}
 		case "commit":
 			out = append(out, "C"+same)
@@ -364,7 +371,7 @@ func txRace(r *rng, add func(violation)) {
 }
 
 type txStats struct {
-	Later int `json:"scripts_with_a_later_transaction_open_after_the_finish"`
+	Later      int            `json:"scripts_with_a_later_transaction_open_after_the_finish"`
 	Cases      int            `json:"cases"`
 	Ops        map[string]int `json:"op_kinds"`
 	Distinct   int            `json:"distinct_cases"`
